@@ -8,8 +8,8 @@ Local Open Scope Z_scope.
 (* Nothing is lost in node storage: the node recorded for an emit call stands for exactly the effective call of a direct assembler -
    instruction id, every option bit but kReserved, extra register, operands up to op_count (4..6 through the extended array), comment. *)
 Theorem C08_node_faithful : forall b id o0 o1 o2 o3 o4 o5,
-  node_ecall (inst_node b id o0 o1 o2 o3 o4 o5)
-  = EInst id (clear_reserved (p_opts b)) (p_exsig b) (p_exid b) (canon_ops o0 o1 o2 o3 o4 o5) (dup_comment (p_comment b)).
+  node_ecalls (inst_node b id o0 o1 o2 o3 o4 o5)
+  = [EInst id (clear_reserved (p_opts b)) (p_exsig b) (p_exid b) (canon_ops o0 o1 o2 o3 o4 o5) (dup_comment (p_comment b))].
 Proof. exact inst_node_faithful. Qed.
 Print Assumptions C08_node_faithful.
 
@@ -20,7 +20,7 @@ Proof. exact hole_drops_operand. Qed.
 Print Assumptions C08_all_operands_kept_refuted.
 
 (* serialize_to performs exactly the nodes' calls, in list order, whatever one-shot state was pending *)
-Theorem C08_serialize_is_node_calls : forall b, trace (replay b) = map node_ecall (active b).
+Theorem C08_serialize_is_node_calls : forall b, trace (replay b) = flat_map node_ecalls (active b).
 Proof. exact trace_replay. Qed.
 Print Assumptions C08_serialize_is_node_calls.
 
@@ -39,44 +39,54 @@ Print Assumptions C08_replay_is_grouping.
    and grouping is not the identity on that program *)
 Theorem C08_replay_is_grouping_example :
   (Forall (fun c => is_emitter_call c = true) example_program /\ all_ok (init_state 8) example_program = true) /\
-  map node_ecall (active (run (init_state 8) example_program)) <> trace example_program.
+  flat_map node_ecalls (active (run (init_state 8) example_program)) <> trace example_program.
 Proof. exact (conj example_hypotheses (proj1 example_grouped)). Qed.
 Print Assumptions C08_replay_is_grouping_example.
 
 (* a call rejected at record time changes nothing (const pools aside, whose align precedes the failing bind as in the Assembler) *)
 Theorem C08_rejected_call_is_noop : forall b c,
-  snd (step b c) <> kOk -> (forall l a d, c <> CConstPool l a d) -> fst (step b c) = b.
+  snd (step b c) <> kOk -> (forall l a d, c <> CConstPool l a d) -> (forall e, c <> CEmitRejected e) -> c <> CEndFunc -> fst (step b c) = b.
 Proof. exact rejected_call_is_noop. Qed.
 Print Assumptions C08_rejected_call_is_noop.
 
-(* Editing the node list yields the code of the edited sequence *)
+(* strict validation (kValidateIntermediate): a refused instruction creates no node and clears the one-shot state, in the Builder exactly
+   as in the Assembler (the validator's verdict is an input of the model) *)
+Theorem C08_rejected_emit_resets : forall b e p,
+  let b' := fst (step b (CEmitRejected e)) in
+  snd (step b (CEmitRejected e)) = e /\ active b' = active b /\ cursor b' = cursor b /\ pool b' = pool b /\
+  p_opts b' = 0 /\ p_exsig b' = 0 /\ p_exid b' = 0 /\ p_comment b' = None /\ front p (CEmitRejected e) = (pend0, []).
+Proof. exact rejected_emit_resets. Qed.
+Print Assumptions C08_rejected_emit_resets.
+
+(* Editing the node list yields the code of the edited sequence: what is serialized after an edit is the calls of the edited node list
+   (a node stands for a LIST of effective calls: one for most kinds, three for a ConstPoolNode, none for a SentinelNode) *)
 Theorem C08_edit_remove : forall b i, in_range i (active b) = true ->
   let b' := fst (step b (CRemove i)) in
-  trace (replay b') = remove_at i (trace (replay b)) /\ pool b' = pool b ++ slice i i (active b).
+  trace (replay b') = flat_map node_ecalls (remove_at i (active b)) /\ pool b' = pool b ++ slice i i (active b).
 Proof. exact edit_remove. Qed.
 Print Assumptions C08_edit_remove.
 
 Theorem C08_edit_remove_range : forall b i j, in_range i (active b) = true -> in_range j (active b) = true -> (i <= j)%nat ->
   let b' := fst (step b (CRemoveRange i j)) in
-  trace (replay b') = remove_slice i j (trace (replay b)) /\ pool b' = pool b ++ slice i j (active b).
+  trace (replay b') = flat_map node_ecalls (remove_slice i j (active b)) /\ pool b' = pool b ++ slice i j (active b).
 Proof. exact edit_remove_range. Qed.
 Print Assumptions C08_edit_remove_range.
 
 Theorem C08_edit_add_after : forall b k i n, nth_error (pool b) k = Some n -> in_range i (active b) = true ->
   let b' := fst (step b (CAddAfter k i)) in
-  trace (replay b') = insert_at (S i) (node_ecall n) (trace (replay b)) /\ pool b' = remove_at k (pool b).
+  trace (replay b') = flat_map node_ecalls (insert_at (S i) n (active b)) /\ pool b' = remove_at k (pool b).
 Proof. exact edit_add_after. Qed.
 Print Assumptions C08_edit_add_after.
 
 Theorem C08_edit_add_before : forall b k i n, nth_error (pool b) k = Some n -> in_range i (active b) = true ->
   let b' := fst (step b (CAddBefore k i)) in
-  trace (replay b') = insert_at i (node_ecall n) (trace (replay b)) /\ pool b' = remove_at k (pool b).
+  trace (replay b') = flat_map node_ecalls (insert_at i n (active b)) /\ pool b' = remove_at k (pool b).
 Proof. exact edit_add_before. Qed.
 Print Assumptions C08_edit_add_before.
 
 Theorem C08_edit_add_node : forall b k n, nth_error (pool b) k = Some n ->
   let b' := fst (step b (CAddNode k)) in
-  trace (replay b') = insert_at (cursor_pos (cursor b)) (node_ecall n) (trace (replay b)) /\ cursor b' = Some (cursor_pos (cursor b)).
+  trace (replay b') = flat_map node_ecalls (insert_at (cursor_pos (cursor b)) n (active b)) /\ cursor b' = Some (cursor_pos (cursor b)).
 Proof. exact edit_add_node. Qed.
 Print Assumptions C08_edit_add_node.
 
@@ -154,3 +164,68 @@ Theorem C08_section_switch_after_any_history : forall rs cs s,
   cursor (fst (do_section s b)) = range_end (active b) s /\ active (fst (do_section s b)) = active b.
 Proof. exact section_switch_after_any_history. Qed.
 Print Assumptions C08_section_switch_after_any_history.
+
+From Verif Require Import Labels.LabelsModel Builder.AsmOrder Builder.BuilderImage.
+
+(* ORDER IRRELEVANCE of assembling, proved on C03's label/fixup machine (Verif.Labels.LabelsModel: new_fixup, bind_label with its fixup
+   walk, resolve_cross_section_fixups, every displacement format of the two backends): two programs whose per-section operation sequences
+   coincide - however the sections interleave - produce the same label table, the same section sizes and, after layout at ANY section
+   offsets and cross-section resolution, the same bytes in every section.  Labels and sections are created first, every label is bound
+   at most once, no address wraps around 2^64.  Fragment: raw bytes, gaps, label references, binds (no relocation entries). *)
+Theorem C08_order_irrelevant : forall nl ns t1 t2 offs,
+  (forall k, proj k t1 = proj k t2) -> tags_ok ns t1 -> tags_ok ns t2 -> NoDup (bound_labels t1) -> nowrap nl ns t1 offs ->
+  let s1 := LabelsModel.run init ((prelude nl ns ++ expand t1) ++ [OResolve offs]) in
+  let s2 := LabelsModel.run init ((prelude nl ns ++ expand t2) ++ [OResolve offs]) in
+  labels s1 = labels s2 /\
+  forall k, (k < S ns)%nat ->
+    s_len (nsec s1 k) = s_len (nsec s2 k) /\
+    sec_image (refs s1) (s_items (nsec s1 k)) = sec_image (refs s2) (s_items (nsec s2 k)).
+Proof. exact order_irrelevant'. Qed.
+Print Assumptions C08_order_irrelevant.
+
+(* SAME IMAGE (was C08_same_image_partial with the whole assembler as hypothesis): for EVERY instruction encoder [enc] whose output for a
+   call depends on the call and on the calls issued before in the same section, assembling what the Builder serializes and assembling the
+   calls directly give - on C03's machine - the same label table, section sizes and resolved bytes in every section. *)
+Theorem C08_same_image : forall (enc : list ecall -> ecall -> list sop) nl ns offs rs cs,
+  Forall (fun c => is_emitter_call c = true) cs -> all_ok (init_state rs) cs = true ->
+  let direct := program enc (trace cs) in
+  let serialized := program enc (trace (replay (BuilderModel.run (init_state rs) cs))) in
+  secs_valid ns (trace cs) -> NoDup (bound_labels direct) -> nowrap nl ns direct offs ->
+  let s1 := LabelsModel.run init ((prelude nl ns ++ expand direct) ++ [OResolve offs]) in
+  let s2 := LabelsModel.run init ((prelude nl ns ++ expand serialized) ++ [OResolve offs]) in
+  labels s1 = labels s2 /\
+  forall k, (k < S ns)%nat ->
+    s_len (nsec s1 k) = s_len (nsec s2 k) /\
+    sec_image (refs s1) (s_items (nsec s1 k)) = sec_image (refs s2) (s_items (nsec s2 k)).
+Proof. exact same_image. Qed.
+Print Assumptions C08_same_image.
+
+(* its hypotheses are satisfiable (the two-section example program, an encoder with rel32 label references, offsets 0 and 4096) *)
+Theorem C08_same_image_example :
+  let direct := program enc_ex (trace example_program) in
+  secs_valid 1 (trace example_program) /\ NoDup (bound_labels direct) /\ nowrap 2 1 direct [0; 4096] /\
+  proj 0 direct <> [] /\ proj 1 direct <> [].
+Proof. exact example_image_hypotheses. Qed.
+Print Assumptions C08_same_image_example.
+
+(* Compiler function nodes (compiler.cpp add_func_node / end_func): layout of the three nodes, cursor, labels, consumed one-shot state *)
+Theorem C08_add_func_layout : forall b,
+  match cursor b with None => True | Some c => (c < length (active b))%nat end ->
+  let b' := fst (BuilderModel.step b CFunc) in
+  let pos := cursor_pos (cursor b) in
+  active b' = firstn pos (active b) ++ mkNode (NFunc (nlabels b + 1) (nlabels b)) (dup_comment (p_comment b)) :: label_node (nlabels b)
+                                   :: mkNode (NFuncEnd (nlabels b + 1)) None :: skipn pos (active b) /\
+  cursor b' = Some pos /\ nlabels b' = nlabels b + 2 /\ cur_func b' = Some (nlabels b + 1) /\
+  p_opts b' = 0 /\ p_exsig b' = 0 /\ p_exid b' = 0 /\ p_comment b' = None /\ pool b' = pool b.
+Proof. exact add_func_layout. Qed.
+Print Assumptions C08_add_func_layout.
+
+Theorem C08_end_func_spec : forall b,
+  let b' := fst (BuilderModel.step b CEndFunc) in
+  active b' = active b /\ pool b' = pool b /\ p_opts b' = 0 /\ p_comment b' = None /\
+  match cur_func b with
+  | None => snd (BuilderModel.step b CEndFunc) = kInvalidState /\ cursor b' = cursor b
+  | Some fl => snd (BuilderModel.step b CEndFunc) = kOk /\ cursor b' = find_index (is_func_end fl) (active b) /\ cur_func b' = None
+  end.
+Proof. exact end_func_spec. Qed.
+Print Assumptions C08_end_func_spec.
